@@ -16,11 +16,16 @@ import (
 //verif:case C14 thorough VerifMapIterator 4 2 0
 //verif:case C14 thorough VerifMapIterator 2 -1 0
 // VerifMapStream args: items L, parallelism, bufferSize, fault (0 none, 1 source error at symbolic position,
-//   2 f fails on a symbolic item, 3 consumer closes early after a symbolic number of results, 4 one Next with an expired context)
+//   2 f fails on a symbolic item, 3 consumer closes early after a symbolic number of results, 4 one Next with an expired context,
+//   5 the consumer's per-call context expires while f is working on a symbolic item)
 //verif:case C14,C08,C09 quick VerifMapStream 0..1 1 0..1 0..4
 //verif:case C14,C08,C09 quick VerifMapStream 2 1 0 0,2,3
 //verif:case C14,C08,C09 quick VerifMapStream 1 2 0 0,2
 //verif:case C14,C08,C09 quick VerifMapStream 1 -1..0 -1..0 0
+//verif:case C14,C08,C09 quick VerifMapStream 1 1 0 5
+//verif:case C14,C08,C09 quick VerifMapStream 2 1 0 5 @preempt=2
+//verif:case C14,C08,C09 quick VerifMapStream 1 2 0 5 @preempt=2
+//verif:case C14,C08,C09 thorough VerifMapStream 2 2 0 5 @preempt=2
 //verif:case C14,C08,C09 thorough VerifMapStream 2 1 0..1 1,4
 //verif:case C14,C08,C09 thorough VerifMapStream 1 2 0 1,3,4
 //verif:case C14,C08,C09 thorough VerifMapStream 3 1 0 0,2
@@ -128,7 +133,10 @@ func (s *vStreamSrc) Next(ctx context.Context) (int, error) {
 	return v, err
 }
 
-func (s *vStreamSrc) Close() { vAtomic(func() { s.closes++ }) }
+func (s *vStreamSrc) Close() {
+	vWindow() // native replay: a source whose Close takes a while (is it waited for?)
+	vAtomic(func() { s.closes++ })
+}
 
 type vExpired struct{ context.Context }
 
@@ -177,9 +185,29 @@ func VerifMapStream(L int, par int, buf int, fault int) {
 		badCall = vConcretize(c)
 	}
 	ctx := context.Background()
-	out := MapStream[int, int](ctx, src, par, buf, func(ctx context.Context, x int) (int, error) {
+	// fault 5: the consumer's per-call context expires WHILE f is working on item cancelItem (f
+	// honours the context it is handed, which is the library's, not the consumer's)
+	cancelItem := -1
+	cctx, cancelConsumer := context.WithCancel(ctx)
+	consumerCancelled := false
+	if fault == 5 {
+		q := vNondetInt("cancelItem")
+		vAssume(vAnd(0 <= q, q < L))
+		if L == 0 {
+			return
+		}
+		cancelItem = vConcretize(q)
+	}
+	out := MapStream[int, int](ctx, src, par, buf, func(fctx context.Context, x int) (int, error) {
 		if x == failItem {
 			return 0, Ef
+		}
+		if x == cancelItem {
+			vAtomic(func() { consumerCancelled = true })
+			cancelConsumer()
+			if err := fctx.Err(); err != nil {
+				return 0, err
+			}
 		}
 		return x*2 + 1, nil
 	})
@@ -201,11 +229,21 @@ func VerifMapStream(L int, par int, buf int, fault int) {
 			c = vExpired{ctx}
 			vWindow() // native replay: let a result arrive first, so that the expired call meets it
 		}
+		usedCancellable := false
+		if fault == 5 {
+			vAtomic(func() { usedCancellable = !consumerCancelled })
+			if usedCancellable {
+				c = cctx
+			}
+		}
 		v, err := out.Next(c)
 		if err == nil {
 			vAtomic(func() { yielded++ })
 		}
 		switch {
+		case fault == 5 && err == context.Canceled && usedCancellable:
+			// the consumer's own context ended during the call: costs nothing (read on)
+			vAssert(consumerCancelled, "C08:mapstream/no-error-without-a-failure")
 		case err == nil:
 			vAssert(v == k*2+1, "C14:mapstream/in-source-order-each-once")
 			vAssert(k < firstBad, "C08:mapstream/no-result-at-or-beyond-the-failed-item")
